@@ -171,6 +171,11 @@ def _ascii_twin(W, st, prefs):
             any_non_ascii = any_non_ascii or not text.isascii()
             if p.endswith(".py") and not text.isascii() and not _non_ascii_only_in_strings_and_comments(text):
                 return None  # replacing characters would change the program's syntax: no twin
+            try:
+                if _to_ascii(text).encode("ascii").decode(_effective_encoding(v)) != _to_ascii(text):
+                    return None  # a stateful 7-bit codec (UTF-7, HZ, ...) reads the replaced text differently: no twin
+            except (UnicodeError, LookupError):
+                return None
             with open(full, "w", encoding="ascii", newline="") as fh:
                 fh.write(_to_ascii(text))
         if not any_non_ascii:
